@@ -56,7 +56,7 @@ func permitted(claims []string, ep string) bool {
 }
 
 func TestC10Endpoints(t *testing.T) {
-	vlib.SetRule("C10", "TestC10Endpoints", "real 2-node cluster with HMAC auth on the proxy and upstream ports; stamping upstreams of the 4 near-miss endpoints e1/e10/e1-x/E1 on drawn nodes (connected with permitted tokens); tokens with drawn endpoint claim sets (none, one, several incl. near misses, lists of blank entries); the target is named by Host label, x-piko-endpoint header, conflicting header+Host, the TCP route path, or the upstream listen path, entering at either node (so the check also crosses a forward); oracle: accepted iff the endpoint routing uses (header > first Host label; path parameter) is in the claim list or the list is empty, an accepted request is served by an upstream of exactly that endpoint, a refused one is answered 401 and reaches no upstream; non-trivial = conflicting Host/header or a near-miss claim")
+	vlib.SetRule("C10", "TestC10Endpoints", "real 2-node cluster with HMAC auth on the proxy and upstream ports; stamping upstreams of the 4 near-miss endpoints e1/e10/e1-x/E1 on drawn nodes (connected with permitted tokens); tokens with drawn endpoint claim sets (none, one, several incl. near misses, lists of blank entries); the target is named by Host label, x-piko-endpoint header, conflicting header+Host (optionally under a request path that resembles one of piko's own routes and names another endpoint), the TCP route path, or the upstream listen path, entering at either node (so the check also crosses a forward); oracle: accepted iff the endpoint routing uses (header > first Host label; path parameter) is in the claim list or the list is empty, an accepted request is served by an upstream of exactly that endpoint, a refused one is answered 401 and reaches no upstream; non-trivial = conflicting Host/header or a near-miss claim")
 	vlib.Run(t, "C10", func(c *vlib.Case) {
 		k := TestKeys()
 		cl, err := StartCluster(2, false, func(i int, conf *config.Config) {
@@ -130,7 +130,19 @@ func TestC10Endpoints(t *testing.T) {
 				target := c10Eps[c.Pick("target", len(c10Eps))]
 				decoy := c10Eps[c.Pick("decoy", len(c10Eps))]
 				routed = target
-				req, _ := http.NewRequest("GET", "http://"+entry.ProxyAddr()+"/", nil)
+				// the request path is the application's business; it may look like one of
+				// piko's own routes (naming an endpoint the token does permit) without being one
+				path := "/"
+				if c.Chance("pikoLookingPath", 1, 4) {
+					pe := c10Eps[c.Pick("pathEndpoint", len(c10Eps))]
+					if len(claims) > 0 && claims[0] != "" && c.Bool("pathNamesClaimedEndpoint") {
+						pe = claims[0]
+					}
+					path = c.OneOf("pathShape", "/_piko/v1/tcp/%s/x", "/_piko/v1/tcp/%s/x/y", "/_piko/v1/upstream/%s", "/piko/v1/upstream/%s")
+					path = fmt.Sprintf(path, pe)
+					c.Class("piko-looking-path")
+				}
+				req, _ := http.NewRequest("GET", "http://"+entry.ProxyAddr()+path, nil)
 				switch how {
 				case "host":
 					req.Host = target + ".piko.test"
@@ -179,7 +191,7 @@ func TestC10Endpoints(t *testing.T) {
 					c.Fatalf("C10: no answer: %v", res.Err)
 				}
 				status, stamp = res.Status, res.Endpoint
-				c.Stepf("%s target=%s decoy=%s claims=%q via %s -> %d stamp=%q", how, target, decoy, claims, entry.ID, status, stamp)
+				c.Stepf("%s target=%s decoy=%s path=%s claims=%q via %s -> %d stamp=%q", how, target, decoy, path, claims, entry.ID, status, stamp)
 			case "tcp":
 				routed = c.OneOf("tcpTarget", "t1", "t1", "t2", "T1")
 				res := DialTCP(entry, routed, tok, false)
